@@ -1612,4 +1612,1324 @@ example : Glob.matchesGlob "Llama3:8B".toList "llama*".toList = true ∧ Glob.ma
     Glob.validPattern "a*b".toList = false ∧ Glob.validPattern "*a*".toList = true := by decide
 example : noDC "llama3:8b".toList = true ∧ noDC "a::a".toList = false ∧ noDC "a:".toList = false := by decide
 
+/-! ### The unified catalogue on the fixed tree: full statement -/
+
+section fixedTree
+
+private abbrev Ap := Url → List String
+private def ObjOk (ap : Ap) (o : UModel) : Prop := (o.sources.map (·.url)).Nodup ∧ ∀ s ∈ o.sources, s.native ∈ ap s.url
+private def EFree (e : Url) (o : UModel) : Prop := ∀ s ∈ o.sources, s.url ≠ e
+private def setAp (ap : Ap) (e : Url) (v : List String) : Ap := fun x => if x = e then v else ap x
+
+private theorem objOk_default (ap : Ap) : ObjOk ap (default : UModel) := ⟨List.nodup_nil, fun s hs => by cases hs⟩
+private theorem eFree_default (e : Url) : EFree e (default : UModel) := fun s hs => by cases hs
+
+private theorem objOk_setAp {ap : Ap} {e : Url} {o : UModel} (v : List String) (hf : EFree e o) (ho : ObjOk ap o) : ObjOk (setAp ap e v) o :=
+  ⟨ho.1, fun s hs => by simp only [setAp, hf s hs, if_false]; exact ho.2 s hs⟩
+
+private theorem read_lt {h : Heap} {a : Addr} (ha : a < h.length) : h.read a = h[a] := by
+  simp [Heap.read, List.getD_eq_getElem?_getD, List.getElem?_eq_getElem ha]
+
+private theorem read_ge {h : Heap} {a : Addr} (ha : h.length ≤ a) : h.read a = default := by
+  simp [Heap.read, List.getD_eq_getElem?_getD, List.getElem?_eq_none ha]
+
+private theorem length_write (h : Heap) (a : Addr) (o : UModel) : (h.write a o).length = h.length := by simp [Heap.write]
+
+private theorem read_write {h : Heap} {a : Addr} (ha : a < h.length) (o : UModel) (b : Addr) :
+    (h.write a o).read b = if b = a then o else h.read b := by
+  unfold Heap.write Heap.read
+  simp only [List.getD_eq_getElem?_getD, List.getElem?_set]
+  by_cases hb : b = a
+  · subst hb; simp [ha]
+  · have : ¬ a = b := fun h => hb h.symm
+    simp [hb, this]
+
+private theorem length_alloc (h : Heap) (o : UModel) : (h.alloc o).1.length = h.length + 1 := by simp [Heap.alloc]
+private theorem alloc_addr (h : Heap) (o : UModel) : (h.alloc o).2 = h.length := rfl
+
+private theorem read_alloc_old {h : Heap} (o : UModel) {b : Addr} (hb : b < h.length) : (h.alloc o).1.read b = h.read b := by
+  simp [Heap.alloc, Heap.read, List.getD_eq_getElem?_getD, List.getElem?_append_left hb]
+
+private theorem read_alloc_new (h : Heap) (o : UModel) : (h.alloc o).1.read h.length = o := by
+  simp [Heap.alloc, Heap.read, List.getD_eq_getElem?_getD]
+
+/-- the heap only grew: every old address reads the same -/
+private def Frame (h h' : Heap) : Prop := h.length ≤ h'.length ∧ ∀ b, b < h.length → h'.read b = h.read b
+private theorem Frame.refl (h : Heap) : Frame h h := ⟨Nat.le_refl _, fun _ _ => rfl⟩
+private theorem Frame.trans {a b c : Heap} (h1 : Frame a b) (h2 : Frame b c) : Frame a c :=
+  ⟨Nat.le_trans h1.1 h2.1, fun x hx => by rw [h2.2 x (Nat.lt_of_lt_of_le hx h1.1), h1.2 x hx]⟩
+private theorem frame_alloc (h : Heap) (o : UModel) : Frame h (h.alloc o).1 :=
+  ⟨by rw [length_alloc]; omega, fun b hb => read_alloc_old o hb⟩
+
+/-- pointwise preservation of a predicate on old addresses (in-place writes allowed) -/
+private def PW (P : UModel → Prop) (h h' : Heap) : Prop := h.length ≤ h'.length ∧ ∀ b, b < h.length → P (h.read b) → P (h'.read b)
+private theorem PW.refl (P : UModel → Prop) (h : Heap) : PW P h h := ⟨Nat.le_refl _, fun _ _ hp => hp⟩
+private theorem PW.trans {P : UModel → Prop} {a b c : Heap} (h1 : PW P a b) (h2 : PW P b c) : PW P a c :=
+  ⟨Nat.le_trans h1.1 h2.1, fun x hx hp => h2.2 x (Nat.lt_of_lt_of_le hx h1.1) (h1.2 x hx hp)⟩
+private theorem pw_of_frame {P : UModel → Prop} {h h' : Heap} (hf : Frame h h') : PW P h h' :=
+  ⟨hf.1, fun b hb hp => by rw [hf.2 b hb]; exact hp⟩
+private theorem pw_write {P : UModel → Prop} {h : Heap} {a : Addr} {o : UModel} (hpo : P (h.read a) → P o) : PW P h (h.write a o) := by
+  refine ⟨by rw [length_write]; exact Nat.le_refl _, fun b hb hp => ?_⟩
+  by_cases ha : a < h.length
+  · rw [read_write ha]
+    by_cases hba : b = a
+    · subst hba; simp; exact hpo hp
+    · simp [hba]; exact hp
+  · have : h.write a o = h := by
+      unfold Heap.write
+      exact List.set_eq_of_length_le (Nat.le_of_not_lt ha)
+    rw [this]; exact hp
+
+
+/-! store invariant -/
+
+section
+variable {κ β : Type} [BEq κ] [LawfulBEq κ]
+private theorem mem_mdel (m : List (κ × β)) (k : κ) (p : κ × β) : p ∈ mdel m k ↔ p ∈ m ∧ p.1 ≠ k := by
+  simp [mdel, List.mem_filter]
+private theorem mem_mput (m : List (κ × β)) (k : κ) (v : β) (p : κ × β) : p ∈ mput m k v ↔ p = (k, v) ∨ (p ∈ m ∧ p.1 ≠ k) := by
+  simp [mput, mem_mdel]
+end
+
+private structure SInv (ap : Ap) (cov : Url → Bool) (st : Store) (h : Heap) : Prop where
+  nodup : (st.catalog.map (·.1)).Nodup
+  valid : ∀ p ∈ st.catalog, p.2 < h.length
+  idkey : ∀ p ∈ st.catalog, (h.read p.2).id = p.1
+  ok    : ∀ p ∈ st.catalog, ObjOk ap (h.read p.2)
+  cover : ∀ p ∈ st.catalog, ∀ s ∈ (h.read p.2).sources, cov s.url = true → p.1 ∈ (mget st.endpointModels s.url).getD []
+
+private theorem addr_unique {ap : Ap} {cov : Url → Bool} {st : Store} {h : Heap} (hs : SInv ap cov st h)
+    {p q : String × Addr} (hp : p ∈ st.catalog) (hq : q ∈ st.catalog) (ha : p.2 = q.2) : p = q := by
+  have h1 := hs.idkey p hp
+  have h2 := hs.idkey q hq
+  rw [ha] at h1
+  have hk : p.1 = q.1 := by rw [← h1, ← h2]
+  have g1 := mget_of_mem _ _ _ hs.nodup (show (p.1, p.2) ∈ st.catalog from hp)
+  have g2 := mget_of_mem _ _ _ hs.nodup (show (q.1, q.2) ∈ st.catalog from hq)
+  rw [hk] at g1
+  rw [g1] at g2
+  cases p; cases q; simp_all
+
+/-- predicates that survive dropping sources -/
+private def SubClosed (P : UModel → Prop) : Prop := ∀ (o : UModel) (l : List Src), l.Sublist o.sources → P o → P { o with sources := l }
+
+private theorem subClosed_objOk (ap : Ap) : SubClosed (ObjOk ap) := by
+  intro o l hl ho
+  exact ⟨(hl.map _).nodup ho.1, fun s hs => ho.2 s (hl.subset hs)⟩
+
+private theorem subClosed_eFree (e : Url) : SubClosed (EFree e) := fun _ _ hl ho s hs => ho s (hl.subset hs)
+
+private theorem subClosed_and {P Q : UModel → Prop} (hp : SubClosed P) (hq : SubClosed Q) : SubClosed (fun o => P o ∧ Q o) :=
+  fun o l hl h => ⟨hp o l hl h.1, hq o l hl h.2⟩
+
+private theorem putModel_eq (h : Heap) (st : Store) (o : UModel) :
+    (putModel h st o).1 = h ++ [o] ∧ (putModel h st o).2.catalog = mput st.catalog o.id h.length ∧
+    (putModel h st o).2.endpointModels = st.endpointModels := by
+  simp [putModel, Heap.alloc]
+
+/-- `PutModel`: the catalogue entry of `o.id` now points to a fresh copy of `o`; nothing else moves -/
+private theorem sinv_put {ap : Ap} {cov : Url → Bool} {st : Store} {h : Heap} (hs : SInv ap cov st h) (o : UModel)
+    (ho : ObjOk ap o)
+    (hc : ∀ s ∈ o.sources, cov s.url = true → o.id ∈ (mget st.endpointModels s.url).getD []) :
+    SInv ap cov (putModel h st o).2 (putModel h st o).1 ∧ Frame h (putModel h st o).1 := by
+  obtain ⟨e1, e2, e3⟩ := putModel_eq h st o
+  have hfr : Frame h (putModel h st o).1 := by
+    rw [e1]; exact frame_alloc h o
+  have hnew : (putModel h st o).1.read h.length = o := by rw [e1]; exact read_alloc_new h o
+  have hlen : (putModel h st o).1.length = h.length + 1 := by rw [e1]; simp
+  refine ⟨⟨?_, ?_, ?_, ?_, ?_⟩, hfr⟩
+  · rw [e2]; exact nodup_mput _ _ _ hs.nodup
+  · intro p hp
+    rw [e2, mem_mput] at hp
+    rw [hlen]
+    rcases hp with rfl | ⟨hin, _⟩
+    · simp
+    · exact Nat.lt_succ_of_lt (hs.valid p hin)
+  · intro p hp
+    rw [e2, mem_mput] at hp
+    rcases hp with rfl | ⟨hin, _⟩
+    · simp only; rw [hnew]
+    · rw [hfr.2 _ (hs.valid p hin)]; exact hs.idkey p hin
+  · intro p hp
+    rw [e2, mem_mput] at hp
+    rcases hp with rfl | ⟨hin, _⟩
+    · simp only; rw [hnew]; exact ho
+    · rw [hfr.2 _ (hs.valid p hin)]; exact hs.ok p hin
+  · intro p hp s hsrc hcv
+    rw [e2, mem_mput] at hp
+    rw [e3]
+    rcases hp with rfl | ⟨hin, _⟩
+    · simp only at hsrc ⊢; rw [hnew] at hsrc; exact hc s hsrc hcv
+    · rw [hfr.2 _ (hs.valid p hin)] at hsrc; exact hs.cover p hin s hsrc hcv
+
+/-- an in-place write through the pointer of catalogue entry `p` -/
+private theorem sinv_write {ap : Ap} {cov : Url → Bool} {st : Store} {h : Heap} (hs : SInv ap cov st h)
+    {p : String × Addr} (hp : p ∈ st.catalog) (o' : UModel) (hid : o'.id = p.1) (ho : ObjOk ap o')
+    (hc : ∀ s ∈ o'.sources, cov s.url = true → p.1 ∈ (mget st.endpointModels s.url).getD []) :
+    SInv ap cov st (h.write p.2 o') := by
+  have hv := hs.valid p hp
+  have rd : ∀ q ∈ st.catalog, (h.write p.2 o').read q.2 = if q = p then o' else h.read q.2 := by
+    intro q hq
+    rw [read_write hv]
+    by_cases hqp : q = p
+    · subst hqp; simp
+    · have : q.2 ≠ p.2 := fun heq => hqp (addr_unique hs hq hp heq)
+      simp [this, hqp]
+  refine ⟨hs.nodup, ?_, ?_, ?_, ?_⟩
+  · intro q hq; rw [length_write]; exact hs.valid q hq
+  · intro q hq; rw [rd q hq]; split
+    · rename_i h1; subst h1; exact hid
+    · exact hs.idkey q hq
+  · intro q hq; rw [rd q hq]; split
+    · exact ho
+    · exact hs.ok q hq
+  · intro q hq s hsrc hcv
+    rw [rd q hq] at hsrc
+    split at hsrc
+    · rename_i h1; subst h1; exact hc s hsrc hcv
+    · exact hs.cover q hq s hsrc hcv
+
+/-- only the catalogue entry of key `k` changed (or disappeared); endpoint bookkeeping untouched -/
+private def Upd (st : Store) (h : Heap) (st' : Store) (h' : Heap) (k : String) : Prop :=
+  (∀ q ∈ st'.catalog, q.1 = k ∨ (q ∈ st.catalog ∧ q.1 ≠ k ∧ h'.read q.2 = h.read q.2)) ∧
+  st'.endpointModels = st.endpointModels
+
+private theorem removeModel_eq (h : Heap) (st : Store) (id : String) :
+    (removeModel h st id).catalog = mdel st.catalog id ∧ (removeModel h st id).endpointModels = st.endpointModels := by
+  unfold removeModel
+  cases hg : mget st.catalog id with
+  | none =>
+    simp only [and_true]
+    -- no entry with that key: deleting changes nothing
+    have : ∀ m : List (String × Addr), mget m id = none → mdel m id = m := by
+      intro m
+      induction m with
+      | nil => intro _; rfl
+      | cons p m ih =>
+        intro hm
+        obtain ⟨k, v⟩ := p
+        rw [mget_cons] at hm
+        by_cases hk : id = k
+        · simp [hk] at hm
+        · have hk' : (id == k) = false := by simpa using hk
+          have hk2 : (k == id) = false := by simpa using (fun h => hk h.symm)
+          simp only [hk', Bool.false_eq_true, if_false] at hm
+          simp [mdel, List.filter, hk2]
+          have := ih hm
+          simpa [mdel] using this
+    exact (this _ hg).symm
+  | some a => simp
+
+private theorem sinv_removeModel {ap : Ap} {cov : Url → Bool} {st : Store} {h : Heap} (hs : SInv ap cov st h) (id : String) :
+    SInv ap cov (removeModel h st id) h ∧ Upd st h (removeModel h st id) h id ∧
+    ∀ q ∈ (removeModel h st id).catalog, q.1 ≠ id := by
+  obtain ⟨e1, e2⟩ := removeModel_eq h st id
+  have sub : ∀ q ∈ (removeModel h st id).catalog, q ∈ st.catalog ∧ q.1 ≠ id := by
+    intro q hq; rw [e1, mem_mdel] at hq; exact hq
+  refine ⟨⟨?_, ?_, ?_, ?_, ?_⟩, ⟨?_, e2⟩, fun q hq => (sub q hq).2⟩
+  · rw [e1]; exact nodup_mdel _ _ hs.nodup
+  · intro q hq; exact hs.valid q (sub q hq).1
+  · intro q hq; exact hs.idkey q (sub q hq).1
+  · intro q hq; exact hs.ok q (sub q hq).1
+  · intro q hq s hsrc hcv; rw [e2]; exact hs.cover q (sub q hq).1 s hsrc hcv
+  · intro q hq; exact Or.inr ⟨(sub q hq).1, (sub q hq).2, rfl⟩
+
+private theorem updateNative_urls (l : List Src) (e : Url) (n : String) : (updateNative l e n).map (·.url) = l.map (·.url) := by
+  induction l with
+  | nil => rfl
+  | cons x xs ih =>
+    simp only [updateNative]
+    split
+    · simp
+    · simp [ih]
+
+private theorem updateNative_native (l : List Src) (e : Url) (n : String) (s : Src) (hs : s ∈ updateNative l e n) :
+    (s ∈ l) ∨ (s.url = e ∧ s.native = n) := by
+  induction l with
+  | nil => cases hs
+  | cons x xs ih =>
+    simp only [updateNative] at hs
+    split at hs
+    · rename_i hx
+      rcases List.mem_cons.mp hs with heq | hin
+      · right; subst heq; exact ⟨by simpa using hx, rfl⟩
+      · left; exact List.mem_cons_of_mem _ hin
+    · rcases List.mem_cons.mp hs with heq | hin
+      · left; subst heq; exact List.mem_cons_self
+      · rcases ih hin with h1 | h1
+        · left; exact List.mem_cons_of_mem _ h1
+        · right; exact h1
+
+/-- the object `mergeModel` writes: same id, sources of `o` with the `e`-source renamed or added -/
+private def merged (o : UModel) (m : Model) (e : Url) : UModel :=
+  let o' : UModel :=
+    if o.sources.any (fun s => s.url == e) then { o with sources := updateNative o.sources e m.name }
+    else { o with sources := o.sources ++ [⟨e, m.name⟩],
+                  aliases := if o.aliases.contains m.name then o.aliases else o.aliases ++ [m.name] }
+  { o' with digest := if m.digest != "" then m.digest else o'.digest }
+
+private theorem mergeModel_eq (h : Heap) (st : Store) (a : Addr) (m : Model) (e : Url) :
+    mergeModel h st a m e = putModel (h.write a (merged (h.read a) m e)) st (merged (h.read a) m e) := rfl
+
+private theorem merged_id (o : UModel) (m : Model) (e : Url) : (merged o m e).id = o.id := by
+  unfold merged; simp only; split <;> rfl
+
+private theorem merged_sources (o : UModel) (m : Model) (e : Url) :
+    (merged o m e).sources = if o.sources.any (fun s => s.url == e) then updateNative o.sources e m.name else o.sources ++ [⟨e, m.name⟩] := by
+  unfold merged; simp only; split <;> rfl
+
+private theorem merged_ok {ap : Ap} (o : UModel) (m : Model) (e : Url) (ho : ObjOk ap o) (hn : m.name ∈ ap e) : ObjOk ap (merged o m e) := by
+  unfold ObjOk
+  rw [merged_sources]
+  split
+  · refine ⟨by rw [updateNative_urls]; exact ho.1, fun s hs => ?_⟩
+    rcases updateNative_native _ _ _ s hs with h1 | ⟨h1, h2⟩
+    · exact ho.2 s h1
+    · rw [h1, h2]; exact hn
+  · rename_i hany
+    refine ⟨?_, fun s hs => ?_⟩
+    · simp only [List.map_append, List.map_cons, List.map_nil]
+      rw [List.nodup_append]
+      refine ⟨ho.1, by simp, ?_⟩
+      intro a ha b hb
+      simp only [List.mem_singleton] at hb
+      subst hb
+      intro hab
+      subst hab
+      obtain ⟨s, hs, hse⟩ := List.mem_map.mp ha
+      apply hany
+      simp only [List.any_eq_true, beq_iff_eq]
+      exact ⟨s, hs, hse⟩
+    · simp only [List.mem_append, List.mem_singleton] at hs
+      rcases hs with h1 | h1
+      · exact ho.2 s h1
+      · subst h1; exact hn
+
+private theorem merged_has_e (o : UModel) (m : Model) (e : Url) : ¬ EFree e (merged o m e) := by
+  intro hf
+  unfold EFree at hf
+  rw [merged_sources] at hf
+  split at hf
+  · rename_i hany
+    simp only [List.any_eq_true, beq_iff_eq] at hany
+    obtain ⟨s, hs, hse⟩ := hany
+    have : e ∈ (updateNative o.sources e m.name).map (·.url) := by
+      rw [updateNative_urls]; exact List.mem_map.mpr ⟨s, hs, hse⟩
+    obtain ⟨s', hs', hse'⟩ := List.mem_map.mp this
+    exact hf s' hs' hse'
+  · exact hf ⟨e, m.name⟩ (by simp) rfl
+
+private theorem merged_urls (o : UModel) (m : Model) (e : Url) (s : Src) (hs : s ∈ (merged o m e).sources) :
+    s.url = e ∨ ∃ s0 ∈ o.sources, s0.url = s.url := by
+  rw [merged_sources] at hs
+  split at hs
+  · have : s.url ∈ (updateNative o.sources e m.name).map (·.url) := List.mem_map.mpr ⟨s, hs, rfl⟩
+    rw [updateNative_urls] at this
+    obtain ⟨s0, h0, h1⟩ := List.mem_map.mp this
+    exact Or.inr ⟨s0, h0, h1⟩
+  · simp only [List.mem_append, List.mem_singleton] at hs
+    rcases hs with h1 | h1
+    · exact Or.inr ⟨s, h1, rfl⟩
+    · subst h1; exact Or.inl rfl
+
+/-- `mergeModel` through the pointer of catalogue entry `p` (coverage is not required for `e`) -/
+private theorem sinv_merge {ap : Ap} {cov : Url → Bool} {st : Store} {h : Heap} (hs : SInv ap cov st h)
+    {p : String × Addr} (hp : p ∈ st.catalog) (m : Model) (e : Url) (hn : m.name ∈ ap e) (hce : cov e = false) :
+    SInv ap cov (mergeModel h st p.2 m e).2 (mergeModel h st p.2 m e).1 ∧
+    PW (ObjOk ap) h (mergeModel h st p.2 m e).1 ∧
+    Upd st h (mergeModel h st p.2 m e).2 (mergeModel h st p.2 m e).1 p.1 ∧
+    (∀ q ∈ (mergeModel h st p.2 m e).2.catalog, q.1 = p.1 → ¬ EFree e ((mergeModel h st p.2 m e).1.read q.2)) := by
+  rw [mergeModel_eq]
+  have ho := hs.ok p hp
+  have hid := hs.idkey p hp
+  have hv := hs.valid p hp
+  have hok' := merged_ok (h.read p.2) m e ho hn
+  have hcov' : ∀ s ∈ (merged (h.read p.2) m e).sources, cov s.url = true → p.1 ∈ (mget st.endpointModels s.url).getD [] := by
+    intro s hsrc hcv
+    rcases merged_urls _ _ _ s hsrc with h1 | ⟨s0, h0, h1⟩
+    · rw [h1, hce] at hcv; cases hcv
+    · rw [← h1]; exact hs.cover p hp s0 h0 (by rw [h1]; exact hcv)
+  have hid' : (merged (h.read p.2) m e).id = p.1 := by rw [merged_id]; exact hid
+  have hs1 := sinv_write hs hp _ hid' hok' hcov'
+  have hput := sinv_put hs1 (merged (h.read p.2) m e) hok' (by rw [hid']; exact hcov')
+  obtain ⟨e1, e2, e3⟩ := putModel_eq (h.write p.2 (merged (h.read p.2) m e)) st (merged (h.read p.2) m e)
+  have hlenw : (h.write p.2 (merged (h.read p.2) m e)).length = h.length := length_write _ _ _
+  refine ⟨hput.1, ?_, ⟨?_, e3⟩, ?_⟩
+  · exact PW.trans (pw_write (fun _ => hok')) (pw_of_frame hput.2)
+  · intro q hq
+    rw [e2, mem_mput] at hq
+    rcases hq with rfl | ⟨hin, hne⟩
+    · left; exact hid'
+    · rw [hid'] at hne
+      right
+      refine ⟨hin, hne, ?_⟩
+      rw [hput.2.2 _ (by rw [hlenw]; exact hs.valid q hin), read_write hv]
+      have : q.2 ≠ p.2 := fun heq => hne (by rw [addr_unique hs hin hp heq])
+      simp [this]
+  · intro q hq hk
+    rw [e2, mem_mput] at hq
+    rcases hq with rfl | ⟨_, hne⟩
+    · simp only
+      rw [e1]
+      have := read_alloc_new (h.write p.2 (merged (h.read p.2) m e)) (merged (h.read p.2) m e)
+      simp only [Heap.alloc] at this
+      rw [this]
+      exact merged_has_e _ _ _
+    · rw [hid'] at hne; exact absurd hk hne
+
+private theorem resolveByName_mem (h : Heap) (st : Store) (n : String) (a : Addr) (hr : resolveByName h st n = some a) :
+    ∃ k, (k, a) ∈ st.catalog := by
+  unfold resolveByName at hr
+  cases h1 : mget st.catalog n with
+  | some b =>
+    simp only [h1, Option.some.injEq] at hr
+    subst hr
+    exact ⟨n, mem_of_mget _ _ _ h1⟩
+  | none =>
+    simp only [h1] at hr
+    split at hr
+    · rename_i b hb
+      simp only [Option.some.injEq] at hr
+      subst hr
+      -- via the name index
+      split at hb
+      · rename_i id0 _ _
+        exact ⟨id0, mem_of_mget _ _ _ hb⟩
+      · cases hb
+    · cases hf : st.catalog.find? (fun p => (h.read p.2).aliases.any (fun al => lowerS al == lowerS n)) with
+      | none => simp [hf] at hr
+      | some q =>
+        simp only [hf, Option.map_some, Option.some.injEq] at hr
+        subst hr
+        exact ⟨q.1, List.mem_of_find?_eq_some hf⟩
+
+private theorem resolveByDigest_mem (st : Store) (d : String) (a : Addr) (hr : (resolveByDigest st d).head? = some a) :
+    ∃ k, (k, a) ∈ st.catalog := by
+  unfold resolveByDigest at hr
+  have : a ∈ ((mget st.digestIndex d).getD []).filterMap (fun id => mget st.catalog id) := List.mem_of_head? hr
+  obtain ⟨id, _, hg⟩ := List.mem_filterMap.mp this
+  exact ⟨id, mem_of_mget _ _ _ hg⟩
+
+private theorem sinv_create {ap : Ap} {cov : Url → Bool} {st : Store} {h : Heap} (hs : SInv ap cov st h)
+    (m : Model) (e : Url) (hn : m.name ∈ ap e) (hce : cov e = false) (id : String) :
+    SInv ap cov (putModel h st { id := id, aliases := [m.name], digest := m.digest, sources := [⟨e, m.name⟩] }).2
+      (putModel h st { id := id, aliases := [m.name], digest := m.digest, sources := [⟨e, m.name⟩] }).1 ∧
+    PW (ObjOk ap) h (putModel h st { id := id, aliases := [m.name], digest := m.digest, sources := [⟨e, m.name⟩] }).1 ∧
+    Upd st h (putModel h st { id := id, aliases := [m.name], digest := m.digest, sources := [⟨e, m.name⟩] }).2
+      (putModel h st { id := id, aliases := [m.name], digest := m.digest, sources := [⟨e, m.name⟩] }).1 id := by
+  have hok : ObjOk ap { id := id, aliases := [m.name], digest := m.digest, sources := [⟨e, m.name⟩] } :=
+    ⟨by simp, fun s hs' => by simp only [List.mem_singleton] at hs'; subst hs'; exact hn⟩
+  have hput := sinv_put hs _ hok (fun s hs' hcv => by
+    simp only [List.mem_singleton] at hs'; subst hs'; rw [hce] at hcv; cases hcv)
+  obtain ⟨e1, e2, e3⟩ := putModel_eq h st { id := id, aliases := [m.name], digest := m.digest, sources := [⟨e, m.name⟩] }
+  refine ⟨hput.1, pw_of_frame hput.2, ⟨?_, e3⟩⟩
+  intro q hq
+  rw [e2, mem_mput] at hq
+  rcases hq with rfl | ⟨hin, hne⟩
+  · left; rfl
+  · right; exact ⟨hin, hne, hput.2.2 _ (hs.valid q hin)⟩
+
+/-- what one `processModel` does to the store: an `e`-source named after the listing entry lands in exactly
+    one catalogue entry, whose key is returned -/
+private theorem sinv_process {ap : Ap} {cov : Url → Bool} {st : Store} {h : Heap} (hs : SInv ap cov st h)
+    (m : Model) (e : Url) (hn : m.name ∈ ap e) (hce : cov e = false) :
+    SInv ap cov (processModel h st m e).2.1 (processModel h st m e).1 ∧
+    PW (ObjOk ap) h (processModel h st m e).1 ∧
+    Upd st h (processModel h st m e).2.1 (processModel h st m e).1 (processModel h st m e).2.2 := by
+  unfold processModel
+  simp only
+  split
+  · -- merged by digest
+    rename_i a hd
+    have hd' : (resolveByDigest st m.digest).head? = some a := by
+      split at hd
+      · exact hd
+      · cases hd
+    obtain ⟨k, hk⟩ := resolveByDigest_mem st m.digest a hd'
+    have hm := sinv_merge hs hk m e hn hce
+    have hid : (h.read a).id = k := hs.idkey (k, a) hk
+    simp only at hm ⊢
+    rw [hid]
+    exact ⟨hm.1, hm.2.1, hm.2.2.1⟩
+  · split
+    · -- merged by name
+      rename_i a hb
+      have : ∃ k, (k, a) ∈ st.catalog := by
+        split at hb
+        · rename_i b hrn
+          split at hb
+          · simp only [Option.some.injEq] at hb; subst hb
+            exact resolveByName_mem h st m.name _ hrn
+          · cases hb
+        · cases hb
+      obtain ⟨k, hk⟩ := this
+      have hm := sinv_merge hs hk m e hn hce
+      have hid : (h.read a).id = k := hs.idkey (k, a) hk
+      simp only at hm ⊢
+      rw [hid]
+      exact ⟨hm.1, hm.2.1, hm.2.2.1⟩
+    · -- a new unified model
+      exact sinv_create hs m e hn hce _
+
+/-- `processModel` leaves an `e`-source in the entry it returns -/
+private theorem process_marks {ap : Ap} {cov : Url → Bool} {st : Store} {h : Heap} (hs : SInv ap cov st h)
+    (m : Model) (e : Url) (hn : m.name ∈ ap e) (hce : cov e = false) :
+    ∀ q ∈ (processModel h st m e).2.1.catalog, ¬ EFree e ((processModel h st m e).1.read q.2) →
+      q.1 = (processModel h st m e).2.2 ∨ (∃ q0 ∈ st.catalog, q0.1 = q.1 ∧ ¬ EFree e (h.read q0.2)) := by
+  intro q hq hnf
+  have hu := (sinv_process hs m e hn hce).2.2
+  rcases hu.1 q hq with h1 | ⟨hin, _, hrd⟩
+  · exact Or.inl h1
+  · right; exact ⟨q, hin, rfl, by rw [← hrd]; exact hnf⟩
+
+private def cutE (o : UModel) (e : Url) : UModel := { o with sources := o.sources.filter (fun s => !(s.url == e)) }
+
+private theorem rmfe_eq (h : Heap) (st : Store) (id : String) (e : Url) :
+    removeModelFromEndpoint h st id e =
+      match mget st.catalog id with
+      | none => (h, st)
+      | some a =>
+        if (cutE (h.read a) e).sources.isEmpty then (h, removeModel h st id)
+        else putModel (h.write a (cutE (h.read a) e)) st (cutE (h.read a) e) := rfl
+
+private theorem sinv_rmfe {ap : Ap} {cov : Url → Bool} {st : Store} {h : Heap} (hs : SInv ap cov st h) (id : String) (e : Url)
+    (P : UModel → Prop) (hP : SubClosed P) :
+    SInv ap cov (removeModelFromEndpoint h st id e).2 (removeModelFromEndpoint h st id e).1 ∧
+    PW P h (removeModelFromEndpoint h st id e).1 ∧
+    Upd st h (removeModelFromEndpoint h st id e).2 (removeModelFromEndpoint h st id e).1 id ∧
+    (∀ q ∈ (removeModelFromEndpoint h st id e).2.catalog, q.1 = id → EFree e ((removeModelFromEndpoint h st id e).1.read q.2)) := by
+  rw [rmfe_eq]
+  cases hg : mget st.catalog id with
+  | none =>
+    simp only
+    have hnone : ∀ q ∈ st.catalog, q.1 ≠ id := by
+      intro q hq hk
+      have : (mget st.catalog id).isSome := (mget_isSome_iff _ _).mpr (List.mem_map.mpr ⟨q, hq, hk⟩)
+      rw [hg] at this; cases this
+    exact ⟨hs, PW.refl _ _, ⟨fun q hq => Or.inr ⟨hq, hnone q hq, rfl⟩, rfl⟩, fun q hq hk => absurd hk (hnone q hq)⟩
+  | some a =>
+    simp only
+    have hp : (id, a) ∈ st.catalog := mem_of_mget _ _ _ hg
+    split
+    · -- last source gone: RemoveModel
+      have hr := sinv_removeModel hs id
+      exact ⟨hr.1, PW.refl _ _, hr.2.1, fun q hq hk => absurd hk (hr.2.2 q hq)⟩
+    · -- write the shortened source list through the pointer, store a copy
+      have ho := hs.ok _ hp
+      have hid : (h.read a).id = id := hs.idkey _ hp
+      have hv : a < h.length := hs.valid _ hp
+      have hsub : (cutE (h.read a) e).sources.Sublist (h.read a).sources := List.filter_sublist
+      have hok' : ObjOk ap (cutE (h.read a) e) := subClosed_objOk ap _ _ hsub ho
+      have hid' : (cutE (h.read a) e).id = id := hid
+      have hcov' : ∀ s ∈ (cutE (h.read a) e).sources, cov s.url = true → id ∈ (mget st.endpointModels s.url).getD [] :=
+        fun s hsrc hcv => hs.cover _ hp s (List.mem_filter.mp hsrc).1 hcv
+      have hfree : EFree e (cutE (h.read a) e) := by
+        intro s hsrc
+        have := (List.mem_filter.mp hsrc).2
+        simpa using this
+      have hs1 : SInv ap cov st (h.write a (cutE (h.read a) e)) := sinv_write hs hp (cutE (h.read a) e) hid' hok' hcov'
+      have hput := sinv_put hs1 (cutE (h.read a) e) hok' (by rw [hid']; exact hcov')
+      obtain ⟨e1, e2, e3⟩ := putModel_eq (h.write a (cutE (h.read a) e)) st (cutE (h.read a) e)
+      have hlenw := length_write h a (cutE (h.read a) e)
+      refine ⟨hput.1, PW.trans (pw_write (fun hp' => hP _ _ hsub hp')) (pw_of_frame hput.2), ⟨?_, e3⟩, ?_⟩
+      · intro q hq
+        rw [e2, mem_mput, hid'] at hq
+        rcases hq with rfl | ⟨hin, hne⟩
+        · left; rfl
+        · right
+          refine ⟨hin, hne, ?_⟩
+          rw [hput.2.2 _ (by rw [hlenw]; exact hs.valid q hin), read_write hv]
+          have : q.2 ≠ a := fun heq => hne (by have := addr_unique hs hin hp heq; rw [this])
+          simp [this]
+      · intro q hq hk
+        rw [e2, mem_mput, hid'] at hq
+        rcases hq with rfl | ⟨_, hne⟩
+        · simp only
+          rw [e1]
+          have := read_alloc_new (h.write a (cutE (h.read a) e)) (cutE (h.read a) e)
+          simp only [Heap.alloc] at this
+          rw [this]
+          exact hfree
+        · exact absurd hk hne
+
+/-- the purge loop of `UnifyModels`: afterwards every catalogue entry is free of `e`, or it is an untouched
+    entry whose key was not in the list -/
+private theorem sinv_removeOld {ap : Ap} {cov : Url → Bool} (e : Url) (P : UModel → Prop) (hP : SubClosed P) (ids : List String) :
+    ∀ (st : Store) (h : Heap), SInv ap cov st h →
+      SInv ap cov (removeOld e (h, st) ids).2 (removeOld e (h, st) ids).1 ∧
+      PW P h (removeOld e (h, st) ids).1 ∧
+      (removeOld e (h, st) ids).2.endpointModels = st.endpointModels ∧
+      (∀ q ∈ (removeOld e (h, st) ids).2.catalog,
+        EFree e ((removeOld e (h, st) ids).1.read q.2) ∨
+          (q.1 ∉ ids ∧ q ∈ st.catalog ∧ (removeOld e (h, st) ids).1.read q.2 = h.read q.2)) := by
+  induction ids with
+  | nil => intro st h hs; exact ⟨hs, PW.refl _ _, rfl, fun q hq => Or.inr ⟨by simp, hq, rfl⟩⟩
+  | cons id ids ih =>
+    intro st h hs
+    obtain ⟨s1, pw1, u1, f1⟩ := sinv_rmfe hs id e P hP
+    have := ih _ _ s1
+    obtain ⟨s2, pw2, em2, l2⟩ := this
+    have hunf : removeOld e (h, st) (id :: ids) =
+        removeOld e ((removeModelFromEndpoint h st id e).1, (removeModelFromEndpoint h st id e).2) ids := by
+      simp [removeOld]
+    rw [hunf]
+    refine ⟨s2, PW.trans pw1 pw2, by rw [em2, u1.2], fun q hq => ?_⟩
+    rcases l2 q hq with hfree | ⟨hni, hin1, hrd⟩
+    · exact Or.inl hfree
+    · rcases u1.1 q hin1 with hk | ⟨hin, hne, hrd1⟩
+      · left; rw [hrd]; exact f1 q hin1 hk
+      · right
+        refine ⟨?_, hin, by rw [hrd, hrd1]⟩
+        simp only [List.mem_cons, not_or]
+        exact ⟨hne, hni⟩
+
+private def Pending (e : Url) (ids : List String) (st : Store) (h : Heap) : Prop :=
+  ∀ q ∈ st.catalog, ¬ EFree e (h.read q.2) → q.1 ∈ ids
+
+private theorem sinv_processAll {ap : Ap} {cov : Url → Bool} (e : Url) (hce : cov e = false) (l : List (Option Model)) :
+    ∀ (h : Heap) (st : Store) (ids : List String), (∀ m, some m ∈ l → m.name ∈ ap e) → SInv ap cov st h → Pending e ids st h →
+      SInv ap cov (l.foldl (processOne e) (h, st, ids)).2.1 (l.foldl (processOne e) (h, st, ids)).1 ∧
+      PW (ObjOk ap) h (l.foldl (processOne e) (h, st, ids)).1 ∧
+      (l.foldl (processOne e) (h, st, ids)).2.1.endpointModels = st.endpointModels ∧
+      Pending e (l.foldl (processOne e) (h, st, ids)).2.2 (l.foldl (processOne e) (h, st, ids)).2.1 (l.foldl (processOne e) (h, st, ids)).1 := by
+  induction l with
+  | nil => intro h st ids _ hs hp; exact ⟨hs, PW.refl _ _, rfl, hp⟩
+  | cons m l ih =>
+    intro h st ids hl hs hp
+    simp only [List.foldl_cons]
+    cases m with
+    | none =>
+      simp only [processOne]
+      exact ih h st ids (fun x hx => hl x (List.mem_cons_of_mem _ hx)) hs hp
+    | some m =>
+      simp only [processOne]
+      have hn := hl m List.mem_cons_self
+      obtain ⟨s1, pw1, u1⟩ := sinv_process hs m e hn hce
+      have hp1 : Pending e (ids ++ [(processModel h st m e).2.2]) (processModel h st m e).2.1 (processModel h st m e).1 := by
+        intro q hq hnf
+        rcases process_marks hs m e hn hce q hq hnf with hk | ⟨q0, hq0, hk0, hnf0⟩
+        · simp [hk]
+        · have := hp q0 hq0 hnf0
+          rw [hk0] at this
+          simp [this]
+      obtain ⟨s2, pw2, em2, p2⟩ := ih _ _ _ (fun x hx => hl x (List.mem_cons_of_mem _ hx)) s1 hp1
+      exact ⟨s2, PW.trans pw1 pw2, by rw [em2, u1.2], p2⟩
+
+private def covAll : Url → Bool := fun _ => true
+private def covBut (e : Url) : Url → Bool := fun x => !(x == e)
+
+/-- `DefaultUnifier.UnifyModels` for endpoint `e` with listing `ms`, starting from a store whose records are
+    all allowed by `ap`: afterwards they are allowed by `ap[e := names ms]`, objects that were allowed and free
+    of `e` (the catalogue's) are still allowed, and the returned pointers are catalogue entries. -/
+private theorem sinv_unify {ap : Ap} {st : Store} {h : Heap} (hs : SInv ap covAll st h) (ms : List (Option Model)) (e : Url) :
+    let ap' := setAp ap e (names (ms.filterMap id))
+    SInv ap' covAll (unifyModels h st ms e).2.1 (unifyModels h st ms e).1 ∧
+    h.length ≤ (unifyModels h st ms e).1.length ∧
+    (∀ b, b < h.length → ObjOk ap (h.read b) ∧ EFree e (h.read b) → ObjOk ap' ((unifyModels h st ms e).1.read b)) ∧
+    (∀ a ∈ (unifyModels h st ms e).2.2, ∃ k, (k, a) ∈ (unifyModels h st ms e).2.1.catalog) := by
+  intro ap'
+  unfold unifyModels
+  simp only
+  -- step B: purge
+  have hQ : SubClosed (fun o => ObjOk ap o ∧ EFree e o) := subClosed_and (subClosed_objOk ap) (subClosed_eFree e)
+  obtain ⟨sB, pwB, emB, lB⟩ := sinv_removeOld (ap := ap) (cov := covAll) e _ hQ ((mget st.endpointModels e).getD []) st h hs
+  generalize removeOld e (h, st) ((mget st.endpointModels e).getD []) = pB at sB pwB emB lB
+  have freeB : ∀ q ∈ pB.2.catalog, EFree e (pB.1.read q.2) := by
+    intro q hq
+    rcases lB q hq with hf | ⟨hni, hin, hrd⟩
+    · exact hf
+    · intro s hsrc hse
+      rw [hrd] at hsrc
+      have := hs.cover q hin s hsrc rfl
+      rw [hse] at this
+      exact hni this
+  have sB' : SInv ap' (covBut e) pB.2 pB.1 :=
+    ⟨sB.nodup, sB.valid, sB.idkey, fun q hq => objOk_setAp _ (freeB q hq) (sB.ok q hq),
+      fun q hq s hsrc _ => sB.cover q hq s hsrc rfl⟩
+  have pend0 : Pending e [] pB.2 pB.1 := fun q hq hnf => absurd (freeB q hq) hnf
+  -- step C: process the listing
+  have hnames : ∀ m, some m ∈ ms → m.name ∈ ap' e := by
+    intro m hm
+    simp only [ap', setAp, if_true, names, List.mem_map, List.mem_filterMap, id]
+    exact ⟨m, ⟨some m, hm, rfl⟩, rfl⟩
+  obtain ⟨sC, pwC, emC, pC⟩ := sinv_processAll (ap := ap') (cov := covBut e) e (by simp [covBut]) ms pB.1 pB.2 [] hnames sB' pend0
+  generalize ms.foldl (processOne e) (pB.1, pB.2, []) = pC' at sC pwC emC pC
+  -- step D: SetEndpointModels
+  have sD : SInv ap' covAll { pC'.2.1 with endpointModels := mput pC'.2.1.endpointModels e pC'.2.2 } pC'.1 := by
+    refine ⟨sC.nodup, sC.valid, sC.idkey, sC.ok, fun q hq s hsrc _ => ?_⟩
+    show q.1 ∈ (mget (mput pC'.2.1.endpointModels e pC'.2.2) s.url).getD []
+    rw [mget_mput]
+    by_cases hse : s.url = e
+    · simp only [hse, beq_self_eq_true, if_true, Option.getD_some]
+      exact pC q hq (fun hf => hf s hsrc hse)
+    · have : (s.url == e) = false := by simpa using hse
+      simp only [this, Bool.false_eq_true, if_false]
+      exact sC.cover q hq s hsrc (by simp [covBut, hse])
+  refine ⟨sD, Nat.le_trans pwB.1 pwC.1, ?_, ?_⟩
+  · intro b hb hq
+    have h1 := pwB.2 b hb hq
+    exact pwC.2 b (Nat.lt_of_lt_of_le hb pwB.1) (objOk_setAp _ h1.2 h1.1)
+  · intro a ha
+    obtain ⟨k, _, hg⟩ := List.mem_filterMap.mp ha
+    exact ⟨k, mem_of_mget _ _ _ hg⟩
+
+/-- the same for an endpoint that is gone (`UnifyModels(nil)`): every record is free of `e` afterwards -/
+private theorem sinv_unify_nil {ap : Ap} {st : Store} {h : Heap} (hs : SInv ap covAll st h) (e : Url)
+    (P : UModel → Prop) (hP : SubClosed P) :
+    SInv (setAp ap e []) covAll (unifyModels h st [] e).2.1 (unifyModels h st [] e).1 ∧
+    (∀ q ∈ (unifyModels h st [] e).2.1.catalog, EFree e ((unifyModels h st [] e).1.read q.2)) ∧
+    PW P h (unifyModels h st [] e).1 := by
+  have hmain := (sinv_unify hs [] e).1
+  obtain ⟨sB, pwB, emB, lB⟩ := sinv_removeOld (ap := ap) (cov := covAll) e P hP ((mget st.endpointModels e).getD []) st h hs
+  have e1 : (unifyModels h st [] e).1 = (removeOld e (h, st) ((mget st.endpointModels e).getD [])).1 := by
+    simp [unifyModels]
+  have e2 : (unifyModels h st [] e).2.1.catalog = (removeOld e (h, st) ((mget st.endpointModels e).getD [])).2.catalog := by
+    simp [unifyModels]
+  refine ⟨by simpa [names] using hmain, ?_, by rw [e1]; exact pwB⟩
+  intro q hq
+  rw [e2] at hq
+  rw [e1]
+  rcases lB q hq with hf | ⟨hni, hin, hrd⟩
+  · exact hf
+  · intro s hsrc hse
+    rw [hrd] at hsrc
+    have := hs.cover q hin s hsrc rfl
+    rw [hse] at this
+    exact hni this
+
+/-! catalogue (globalUnified) side -/
+
+private def AddrOk (ap : Ap) (h : Heap) (a : Addr) : Prop := a < h.length ∧ ObjOk ap (h.read a)
+private def GInv (ap : Ap) (g : List (String × Addr)) (h : Heap) : Prop := ∀ p ∈ g, AddrOk ap h p.2
+
+private theorem addrOk_frame {ap : Ap} {h h' : Heap} (hf : Frame h h') {a : Addr} (ha : AddrOk ap h a) : AddrOk ap h' a :=
+  ⟨Nat.lt_of_lt_of_le ha.1 hf.1, by rw [hf.2 a ha.1]; exact ha.2⟩
+
+private theorem sinv_frame {ap : Ap} {cov : Url → Bool} {st : Store} {h h' : Heap} (hf : Frame h h') (hs : SInv ap cov st h) :
+    SInv ap cov st h' :=
+  ⟨hs.nodup, fun q hq => Nat.lt_of_lt_of_le (hs.valid q hq) hf.1,
+   fun q hq => by rw [hf.2 _ (hs.valid q hq)]; exact hs.idkey q hq,
+   fun q hq => by rw [hf.2 _ (hs.valid q hq)]; exact hs.ok q hq,
+   fun q hq s hsrc hcv => hs.cover q hq s (by rw [hf.2 _ (hs.valid q hq)] at hsrc; exact hsrc) hcv⟩
+
+private theorem dropOne_spec {ap : Ap} (e : Url) (l : List (String × Addr)) (ent : String × Addr)
+    (p : Heap × List (String × Addr)) (hg : GInv ap p.2 p.1) (hent : AddrOk ap p.1 ent.2)
+    (hinv : ∀ q ∈ p.2, q ∈ ent :: l ∨ EFree e (p.1.read q.2)) :
+    Frame p.1 (dropOne e p ent).1 ∧ GInv ap (dropOne e p ent).2 (dropOne e p ent).1 ∧
+    (∀ q ∈ (dropOne e p ent).2, q ∈ l ∨ EFree e ((dropOne e p ent).1.read q.2)) := by
+  unfold dropOne
+  simp only
+  by_cases hany : (p.1.read ent.2).sources.any (fun s => s.url == e) = true
+  · simp only [hany, if_true]
+    by_cases hemp : ((p.1.read ent.2).sources.filter (fun s => !(s.url == e))).isEmpty = true
+    · simp only [hemp, if_true]
+      refine ⟨Frame.refl _, fun q hq => hg q ((mem_mdel _ _ _).mp hq).1, fun q hq => ?_⟩
+      obtain ⟨hin, hne⟩ := (mem_mdel _ _ _).mp hq
+      rcases hinv q hin with h1 | h1
+      · rcases List.mem_cons.mp h1 with heq | hl
+        · subst heq; exact absurd rfl hne
+        · exact Or.inl hl
+      · exact Or.inr h1
+    · simp only [hemp, Bool.false_eq_true, if_false]
+      have hfr := frame_alloc p.1 { p.1.read ent.2 with sources := (p.1.read ent.2).sources.filter (fun s => !(s.url == e)) }
+      have hsub : ((p.1.read ent.2).sources.filter (fun s => !(s.url == e))).Sublist (p.1.read ent.2).sources := List.filter_sublist
+      have hnew := read_alloc_new p.1 { p.1.read ent.2 with sources := (p.1.read ent.2).sources.filter (fun s => !(s.url == e)) }
+      have hnewok : AddrOk ap (p.1.alloc { p.1.read ent.2 with sources := (p.1.read ent.2).sources.filter (fun s => !(s.url == e)) }).1 p.1.length := by
+        refine ⟨by rw [length_alloc]; exact Nat.lt_succ_self _, ?_⟩
+        rw [hnew]; exact subClosed_objOk ap _ _ hsub hent.2
+      have hnewfree : EFree e ((p.1.alloc { p.1.read ent.2 with sources := (p.1.read ent.2).sources.filter (fun s => !(s.url == e)) }).1.read p.1.length) := by
+        rw [hnew]; intro s hsrc
+        have := (List.mem_filter.mp hsrc).2
+        simpa using this
+      refine ⟨hfr, fun q hq => ?_, fun q hq => ?_⟩
+      · obtain ⟨q0, hq0, rfl⟩ := List.mem_map.mp hq
+        split
+        · exact hnewok
+        · exact addrOk_frame hfr (hg q0 hq0)
+      · obtain ⟨q0, hq0, rfl⟩ := List.mem_map.mp hq
+        split
+        · exact Or.inr hnewfree
+        · rename_i hk
+          rcases hinv q0 hq0 with h1 | h1
+          · rcases List.mem_cons.mp h1 with heq | hl
+            · subst heq; simp at hk
+            · exact Or.inl hl
+          · right; rw [hfr.2 _ (hg q0 hq0).1]; exact h1
+  · simp only [hany, Bool.false_eq_true, if_false]
+    refine ⟨Frame.refl _, hg, fun q hq => ?_⟩
+    rcases hinv q hq with h1 | h1
+    · rcases List.mem_cons.mp h1 with heq | hl
+      · subst heq
+        right
+        intro s hsrc hse
+        apply hany
+        simp only [List.any_eq_true, beq_iff_eq]
+        exact ⟨s, hsrc, hse⟩
+      · exact Or.inl hl
+    · exact Or.inr h1
+
+private theorem dropGlobal_spec {ap : Ap} (e : Url) (h : Heap) (g : List (String × Addr)) (hg : GInv ap g h) :
+    Frame h (dropEndpointFromGlobal h g e).1 ∧ GInv ap (dropEndpointFromGlobal h g e).2 (dropEndpointFromGlobal h g e).1 ∧
+    (∀ q ∈ (dropEndpointFromGlobal h g e).2, EFree e ((dropEndpointFromGlobal h g e).1.read q.2)) := by
+  unfold dropEndpointFromGlobal
+  have : ∀ (l : List (String × Addr)) (p : Heap × List (String × Addr)), GInv ap p.2 p.1 → (∀ ent ∈ l, AddrOk ap p.1 ent.2) →
+      (∀ q ∈ p.2, q ∈ l ∨ EFree e (p.1.read q.2)) →
+      Frame p.1 (l.foldl (dropOne e) p).1 ∧ GInv ap (l.foldl (dropOne e) p).2 (l.foldl (dropOne e) p).1 ∧
+      (∀ q ∈ (l.foldl (dropOne e) p).2, EFree e ((l.foldl (dropOne e) p).1.read q.2)) := by
+    intro l
+    induction l with
+    | nil =>
+      intro p hgp _ hinv
+      refine ⟨Frame.refl _, hgp, fun q hq => ?_⟩
+      rcases hinv q hq with h1 | h1
+      · cases h1
+      · exact h1
+    | cons ent l ih =>
+      intro p hgp hl hinv
+      obtain ⟨f1, g1, i1⟩ := dropOne_spec e l ent p hgp (hl ent List.mem_cons_self) hinv
+      obtain ⟨f2, g2, i2⟩ := ih _ g1 (fun x hx => addrOk_frame f1 (hl x (List.mem_cons_of_mem _ hx))) i1
+      exact ⟨Frame.trans f1 f2, g2, i2⟩
+  exact this g (h, g) hg hg (fun q hq => Or.inl hq)
+
+private theorem addSrc_nodup (acc : List Src) (s : Src) (h : (acc.map (·.url)).Nodup) :
+    ((addSrcFirstWins acc s).map (·.url)).Nodup := by
+  unfold addSrcFirstWins
+  split
+  · exact h
+  · rename_i hany
+    simp only [List.map_append, List.map_cons, List.map_nil]
+    rw [List.nodup_append]
+    refine ⟨h, by simp, ?_⟩
+    intro a ha b hb
+    simp only [List.mem_singleton] at hb
+    subst hb
+    intro hab; subst hab
+    obtain ⟨x, hx, hxe⟩ := List.mem_map.mp ha
+    apply hany
+    simp only [List.any_eq_true, beq_iff_eq]
+    exact ⟨x, hx, hxe⟩
+
+private theorem mergeObjects_objOk {ap : Ap} (os : List UModel) (hos : ∀ o ∈ os, ObjOk ap o) : ObjOk ap (mergeObjects os) := by
+  refine ⟨?_, mergeObjects_ok (A := fun e n => n ∈ ap e) os (fun o ho => (hos o ho).2)⟩
+  unfold mergeObjects
+  simp only
+  have inner : ∀ (l acc : List Src), (acc.map (·.url)).Nodup → ((l.foldl addSrcFirstWins acc).map (·.url)).Nodup := by
+    intro l
+    induction l with
+    | nil => intro acc ha; exact ha
+    | cons s l ih => intro acc ha; exact ih _ (addSrc_nodup acc s ha)
+  have outer : ∀ (l : List UModel) (acc : List Src), (acc.map (·.url)).Nodup →
+      ((l.foldl (fun acc o => o.sources.foldl addSrcFirstWins acc) acc).map (·.url)).Nodup := by
+    intro l
+    induction l with
+    | nil => intro acc ha; exact ha
+    | cons o l ih => intro acc ha; exact ih _ (inner o.sources acc ha)
+  exact outer os [] List.nodup_nil
+
+private theorem groupById_addrs (h : Heap) (as : List Addr) : ∀ grp ∈ groupById h as, ∀ a ∈ grp.2, a ∈ as := by
+  unfold groupById
+  have : ∀ (l : List Addr) (g : List (String × List Addr)) (S : List Addr), (∀ grp ∈ g, ∀ a ∈ grp.2, a ∈ S) →
+      ∀ grp ∈ l.foldl (fun g a =>
+        let id := (h.read a).id
+        match mget g id with
+        | some l => g.map (fun p => if p.1 == id then (id, l ++ [a]) else p)
+        | none => g ++ [(id, [a])]) g, ∀ a ∈ grp.2, a ∈ S ++ l := by
+    intro l
+    induction l with
+    | nil => intro g S hg grp hgrp a ha; simpa using hg grp hgrp a ha
+    | cons x l ih =>
+      intro g S hg
+      simp only [List.foldl_cons]
+      have := ih (let id := (h.read x).id
+        match mget g id with
+        | some l => g.map (fun p => if p.1 == id then (id, l ++ [x]) else p)
+        | none => g ++ [(id, [x])]) (S ++ [x]) (by
+          intro grp hgrp a ha
+          simp only at hgrp
+          split at hgrp
+          · rename_i l' hl'
+            obtain ⟨p0, hp0, rfl⟩ := List.mem_map.mp hgrp
+            split at ha
+            · simp only [List.mem_append, List.mem_singleton] at ha
+              rcases ha with h1 | h1
+              · have := mem_of_mget _ _ _ hl'
+                exact List.mem_append_left _ (hg _ this a h1)
+              · subst h1; simp
+            · exact List.mem_append_left _ (hg p0 hp0 a ha)
+          · simp only [List.mem_append, List.mem_singleton] at hgrp
+            rcases hgrp with h1 | h1
+            · exact List.mem_append_left _ (hg grp h1 a ha)
+            · subst h1; simp at ha; subst ha; simp)
+      intro grp hgrp a ha
+      have := this grp hgrp a ha
+      simpa [List.append_assoc] using this
+  intro grp hgrp a ha
+  simpa using this as [] [] (fun grp hgrp => by cases hgrp) grp hgrp a ha
+
+private theorem mergeGroup_spec {ap : Ap} (p : Heap × List (String × Addr)) (grp : String × List Addr)
+    (hg : GInv ap p.2 p.1) (hgrp : ∀ a ∈ grp.2, AddrOk ap p.1 a) :
+    Frame p.1 (mergeGroup p grp).1 ∧ GInv ap (mergeGroup p grp).2 (mergeGroup p grp).1 := by
+  unfold mergeGroup
+  simp only
+  have hmem : ∀ a ∈ grp.2 ++ (match mget p.2 grp.1 with | some a => [a] | none => []), AddrOk ap p.1 a := by
+    intro a ha
+    rcases List.mem_append.mp ha with h1 | h1
+    · exact hgrp a h1
+    · split at h1
+      · rename_i b hb
+        simp only [List.mem_singleton] at h1
+        subst h1
+        exact hg _ (mem_of_mget _ _ _ hb)
+      · cases h1
+  split
+  · rename_i a heq
+    refine ⟨Frame.refl _, fun q hq => ?_⟩
+    rcases (mem_mput _ _ _ _).mp hq with rfl | ⟨hin, _⟩
+    · exact hmem a (heq ▸ List.mem_singleton.mpr rfl)
+    · exact hg q hin
+  · have hfr := frame_alloc p.1 (mergeObjects ((grp.2 ++ (match mget p.2 grp.1 with | some a => [a] | none => [])).map p.1.read))
+    refine ⟨hfr, fun q hq => ?_⟩
+    rcases (mem_mput _ _ _ _).mp hq with rfl | ⟨hin, _⟩
+    · refine ⟨by rw [length_alloc]; exact Nat.lt_succ_self _, ?_⟩
+      simp only
+      rw [alloc_addr, read_alloc_new]
+      apply mergeObjects_objOk
+      intro o ho
+      obtain ⟨a, ha, rfl⟩ := List.mem_map.mp ho
+      exact (hmem a ha).2
+    · exact addrOk_frame hfr (hg q hin)
+
+private theorem mergeGroups_spec {ap : Ap} (groups : List (String × List Addr)) :
+    ∀ (p : Heap × List (String × Addr)), GInv ap p.2 p.1 → (∀ grp ∈ groups, ∀ a ∈ grp.2, AddrOk ap p.1 a) →
+      Frame p.1 (groups.foldl mergeGroup p).1 ∧ GInv ap (groups.foldl mergeGroup p).2 (groups.foldl mergeGroup p).1 := by
+  induction groups with
+  | nil => intro p hg _; exact ⟨Frame.refl _, hg⟩
+  | cons grp groups ih =>
+    intro p hg hgr
+    obtain ⟨f1, g1⟩ := mergeGroup_spec p grp hg (hgr grp List.mem_cons_self)
+    obtain ⟨f2, g2⟩ := ih _ g1 (fun x hx a ha => addrOk_frame f1 (hgr x (List.mem_cons_of_mem _ hx) a ha))
+    exact ⟨Frame.trans f1 f2, g2⟩
+
+private theorem removeSrc_sublist (l : List Src) (e : Url) : (removeSrc l e).Sublist l := by
+  induction l with
+  | nil => exact List.Sublist.refl _
+  | cons s l ih =>
+    simp only [removeSrc]
+    split
+    · exact List.sublist_cons_self s l
+    · exact ih.cons_cons s
+
+private theorem removeSrc_free (l : List Src) (e : Url) (hn : (l.map (·.url)).Nodup) : ∀ s ∈ removeSrc l e, s.url ≠ e := by
+  induction l with
+  | nil => intro s hs; cases hs
+  | cons x l ih =>
+    simp only [List.map_cons, List.nodup_cons] at hn
+    intro s hs
+    simp only [removeSrc] at hs
+    split at hs
+    · rename_i hx
+      have hxe : x.url = e := by simpa using hx
+      intro hse
+      exact hn.1 (List.mem_map.mpr ⟨s, hs, by rw [hse, hxe]⟩)
+    · rename_i hx
+      rcases List.mem_cons.mp hs with heq | hin
+      · subst heq; simpa using hx
+      · exact ih hn.2 s hin
+
+private theorem sinv_write_other {ap : Ap} {cov : Url → Bool} {st : Store} {h : Heap} (hs : SInv ap cov st h)
+    (a : Addr) (o : UModel) (hne : ∀ q ∈ st.catalog, q.2 ≠ a) : SInv ap cov st (h.write a o) := by
+  have rd : ∀ q ∈ st.catalog, (h.write a o).read q.2 = h.read q.2 := by
+    intro q hq
+    by_cases ha : a < h.length
+    · rw [read_write ha]; simp [hne q hq]
+    · have : h.write a o = h := by unfold Heap.write; exact List.set_eq_of_length_le (Nat.le_of_not_lt ha)
+      rw [this]
+  exact ⟨hs.nodup, fun q hq => by rw [length_write]; exact hs.valid q hq,
+    fun q hq => by rw [rd q hq]; exact hs.idkey q hq,
+    fun q hq => by rw [rd q hq]; exact hs.ok q hq,
+    fun q hq s hsrc hcv => hs.cover q hq s (by rw [rd q hq] at hsrc; exact hsrc) hcv⟩
+
+/-- one entry of RemoveEndpoint's in-place edit of the catalogue -/
+private theorem removeOne_spec {ap apS : Ap} (e : Url) (st : Store) (l : List (String × Addr)) (ent : String × Addr)
+    (p : Heap × List (String × Addr)) (hg : GInv ap p.2 p.1) (hent : AddrOk ap p.1 ent.2)
+    (hinv : ∀ q ∈ p.2, q ∈ ent :: l ∨ EFree e (p.1.read q.2))
+    (hs : SInv apS covAll st p.1) (hsf : ∀ q ∈ st.catalog, EFree e (p.1.read q.2)) :
+    (removeOne e p ent).1.length = p.1.length ∧
+    PW (ObjOk ap) p.1 (removeOne e p ent).1 ∧
+    GInv ap (removeOne e p ent).2 (removeOne e p ent).1 ∧
+    (∀ q ∈ (removeOne e p ent).2, q ∈ l ∨ EFree e ((removeOne e p ent).1.read q.2)) ∧
+    SInv apS covAll st (removeOne e p ent).1 ∧ (∀ q ∈ st.catalog, EFree e ((removeOne e p ent).1.read q.2)) := by
+  unfold removeOne
+  simp only
+  by_cases hany : (p.1.read ent.2).sources.any (fun s => s.url == e) = true
+  · simp only [hany, if_true]
+    have hsub := removeSrc_sublist (p.1.read ent.2).sources e
+    have hfree' : EFree e { p.1.read ent.2 with sources := removeSrc (p.1.read ent.2).sources e } :=
+      removeSrc_free _ e hent.2.1
+    have hnotfree : ¬ EFree e (p.1.read ent.2) := by
+      intro hf
+      simp only [List.any_eq_true, beq_iff_eq] at hany
+      obtain ⟨s, hs', hse⟩ := hany
+      exact hf s hs' hse
+    have hne : ∀ q ∈ st.catalog, q.2 ≠ ent.2 := by
+      intro q hq heq
+      apply hnotfree
+      rw [← heq]; exact hsf q hq
+    have hlen := length_write p.1 ent.2 { p.1.read ent.2 with sources := removeSrc (p.1.read ent.2).sources e }
+    have pwO : PW (ObjOk ap) p.1 (p.1.write ent.2 { p.1.read ent.2 with sources := removeSrc (p.1.read ent.2).sources e }) :=
+      pw_write (fun ho => subClosed_objOk ap _ _ hsub ho)
+    have pwF : PW (EFree e) p.1 (p.1.write ent.2 { p.1.read ent.2 with sources := removeSrc (p.1.read ent.2).sources e }) :=
+      pw_write (fun _ => hfree')
+    have hrd : (p.1.write ent.2 { p.1.read ent.2 with sources := removeSrc (p.1.read ent.2).sources e }).read ent.2 =
+        { p.1.read ent.2 with sources := removeSrc (p.1.read ent.2).sources e } := by
+      rw [read_write hent.1]; simp
+    have sS := sinv_write_other hs ent.2 { p.1.read ent.2 with sources := removeSrc (p.1.read ent.2).sources e } hne
+    have sF : ∀ q ∈ st.catalog, EFree e ((p.1.write ent.2 { p.1.read ent.2 with sources := removeSrc (p.1.read ent.2).sources e }).read q.2) :=
+      fun q hq => pwF.2 q.2 (hs.valid q hq) (hsf q hq)
+    have gAll : ∀ q ∈ p.2, AddrOk ap (p.1.write ent.2 { p.1.read ent.2 with sources := removeSrc (p.1.read ent.2).sources e }) q.2 :=
+      fun q hq => ⟨by rw [hlen]; exact (hg q hq).1, pwO.2 q.2 (hg q hq).1 (hg q hq).2⟩
+    have iAll : ∀ q ∈ p.2, q ∈ l ∨ EFree e ((p.1.write ent.2 { p.1.read ent.2 with sources := removeSrc (p.1.read ent.2).sources e }).read q.2) := by
+      intro q hq
+      rcases hinv q hq with h1 | h1
+      · rcases List.mem_cons.mp h1 with heq | hl
+        · subst heq; right; rw [hrd]; exact hfree'
+        · exact Or.inl hl
+      · exact Or.inr (pwF.2 q.2 (hg q hq).1 h1)
+    split
+    · exact ⟨hlen, pwO, fun q hq => gAll q ((mem_mdel _ _ _).mp hq).1, fun q hq => iAll q ((mem_mdel _ _ _).mp hq).1, sS, sF⟩
+    · exact ⟨hlen, pwO, gAll, iAll, sS, sF⟩
+  · simp only [hany, Bool.false_eq_true, if_false]
+    refine ⟨trivial, PW.refl _ _, hg, fun q hq => ?_, hs, hsf⟩
+    rcases hinv q hq with h1 | h1
+    · rcases List.mem_cons.mp h1 with heq | hl
+      · subst heq
+        right
+        intro s hsrc hse
+        apply hany
+        simp only [List.any_eq_true, beq_iff_eq]
+        exact ⟨s, hsrc, hse⟩
+      · exact Or.inl hl
+    · exact Or.inr h1
+
+private theorem removeAll_spec {ap apS : Ap} (e : Url) (st : Store) (l : List (String × Addr)) :
+    ∀ (p : Heap × List (String × Addr)), GInv ap p.2 p.1 → (∀ ent ∈ l, AddrOk ap p.1 ent.2) →
+      (∀ q ∈ p.2, q ∈ l ∨ EFree e (p.1.read q.2)) →
+      SInv apS covAll st p.1 → (∀ q ∈ st.catalog, EFree e (p.1.read q.2)) →
+      GInv ap (l.foldl (removeOne e) p).2 (l.foldl (removeOne e) p).1 ∧
+      (∀ q ∈ (l.foldl (removeOne e) p).2, EFree e ((l.foldl (removeOne e) p).1.read q.2)) ∧
+      SInv apS covAll st (l.foldl (removeOne e) p).1 := by
+  induction l with
+  | nil =>
+    intro p hg _ hinv hs _
+    refine ⟨hg, fun q hq => ?_, hs⟩
+    rcases hinv q hq with h1 | h1
+    · cases h1
+    · exact h1
+  | cons ent l ih =>
+    intro p hg hl hinv hs hsf
+    obtain ⟨len1, pw1, g1, i1, s1, f1⟩ := removeOne_spec (ap := ap) (apS := apS) e st l ent p hg (hl ent List.mem_cons_self) hinv hs hsf
+    simp only [List.foldl_cons]
+    exact ih _ g1 (fun x hx => ⟨by rw [len1]; exact (hl x (List.mem_cons_of_mem _ hx)).1,
+      pw1.2 x.2 (hl x (List.mem_cons_of_mem _ hx)).1 (hl x (List.mem_cons_of_mem _ hx)).2⟩) i1 s1 f1
+
+/-- one unification goroutine on the tree with the stale-source fix: store and catalogue move from `ap` to
+    `ap[e := names of the listing]` -/
+private theorem runUnify_fixed {ap : Ap} (vs : Variants) (hd : vs.dropStale = .fixed) (u : Unified) (t : Task)
+    (hs : SInv ap covAll u.store u.heap) (hg : GInv ap u.global u.heap) :
+    SInv (setAp ap t.url (names (t.models.filterMap id))) covAll (runUnify vs u t).store (runUnify vs u t).heap ∧
+    GInv (setAp ap t.url (names (t.models.filterMap id))) (runUnify vs u t).global (runUnify vs u t).heap ∧
+    (runUnify vs u t).pending = u.pending ∧ (runUnify vs u t).latest = u.latest ∧ (runUnify vs u t).base = u.base := by
+  unfold runUnify
+  simp only [hd]
+  obtain ⟨f0, g0, free0⟩ := dropGlobal_spec (ap := ap) t.url u.heap u.global hg
+  generalize dropEndpointFromGlobal u.heap u.global t.url = p0 at f0 g0 free0
+  have s0 := sinv_frame f0 hs
+  obtain ⟨s1, len1, pw1, res1⟩ := sinv_unify s0 t.models t.url
+  generalize unifyModels p0.1 u.store t.models t.url = r1 at s1 len1 pw1 res1
+  have g1 : GInv (setAp ap t.url (names (t.models.filterMap id))) p0.2 r1.1 :=
+    fun q hq => ⟨Nat.lt_of_lt_of_le (g0 q hq).1 len1, pw1 q.2 (g0 q hq).1 ⟨(g0 q hq).2, free0 q hq⟩⟩
+  have hgr : ∀ grp ∈ groupById r1.1 r1.2.2, ∀ a ∈ grp.2, AddrOk (setAp ap t.url (names (t.models.filterMap id))) r1.1 a := by
+    intro grp hgrp a ha
+    obtain ⟨k, hk⟩ := res1 a (groupById_addrs r1.1 r1.2.2 grp hgrp a ha)
+    exact ⟨s1.valid _ hk, s1.ok _ hk⟩
+  obtain ⟨f2, g2⟩ := mergeGroups_spec (groupById r1.1 r1.2.2) (r1.1, p0.2) g1 hgr
+  exact ⟨sinv_frame f2 s1, g2, trivial, trivial, trivial⟩
+
+private theorem registerModels_ok_iff (vs : Variants) (b : Base) (e : Url) (ms : List (Option Model)) :
+    (b.registerModels vs e ms).2 = !hasEmptyName ms := by
+  unfold Base.registerModels
+  cases hne : hasEmptyName ms with
+  | true =>
+    by_cases hvf : (vs.validateFirst == .fixed) = true
+    · simp [hvf]
+    · simp only [hvf, Bool.false_and, Bool.false_eq_true, if_false, Bool.not_true]
+      have hms : ms.isEmpty = false := by
+        cases ms with
+        | nil => simp [hasEmptyName] at hne
+        | cons a t => rfl
+      simp only [hms, Bool.false_eq_true, if_false]
+      have hab := registerLoop_abort e ms (removeEndpointFromIndex b e) [] hne
+      cases hloop : registerLoop e (removeEndpointFromIndex b e) [] ms with
+      | mk idx rest =>
+        obtain ⟨cp, ab⟩ := rest
+        rw [hloop] at hab
+        simp only at hab
+        subst hab
+        simp
+  | false =>
+    simp only [Bool.and_false, Bool.false_eq_true, if_false, Bool.not_false]
+    by_cases hms : ms.isEmpty = true
+    · simp [hms]
+    · simp only [hms, Bool.false_eq_true, if_false]
+      have hok := (registerLoop_ok e ms (removeEndpointFromIndex b e) [] hne).1
+      cases hloop : registerLoop e (removeEndpointFromIndex b e) [] ms with
+      | mk idx rest =>
+        obtain ⟨cp, ab⟩ := rest
+        rw [hloop] at hok
+        simp only at hok
+        subst hok
+        simp
+
+private theorem mem_eraseIdx_of_ne {α} (l : List α) (i : Nat) (x y : α) (hy : l[i]? = some y) (hx : x ∈ l) (hne : x ≠ y) :
+    x ∈ l.eraseIdx i := by
+  induction l generalizing i with
+  | nil => cases hx
+  | cons a l ih =>
+    cases i with
+    | zero =>
+      simp only [List.getElem?_cons_zero, Option.some.injEq] at hy
+      subst hy
+      simp only [List.eraseIdx_cons_zero]
+      rcases List.mem_cons.mp hx with h | h
+      · exact absurd h hne
+      · exact h
+    | succ i =>
+      simp only [List.getElem?_cons_succ] at hy
+      simp only [List.eraseIdx_cons_succ]
+      rcases List.mem_cons.mp hx with h | h
+      · subst h; exact List.mem_cons_self
+      · exact List.mem_cons_of_mem _ (ih i hy h)
+
+/-- the invariant of the fully fixed tree -/
+private structure FInv (u : Unified) (r : Ref) : Prop where
+  ex      : ∃ ap : Ap, SInv ap covAll u.store u.heap ∧ GInv ap u.global u.heap ∧
+              (∀ e, mget u.latest e = none → ∀ n ∈ ap e, n ∈ names (listed r e))
+  mailbox : ∀ e ms, mget u.latest e = some ms → ∀ n ∈ names (ms.filterMap id), n ∈ names (listed r e)
+  owner   : ∀ e, (mget u.latest e).isSome = true → ∃ t ∈ u.pending, t.url = e
+
+private theorem listed_set (r : Ref) (e x : Url) (v : Option (List Model)) :
+    listed (r.set e v) x = if x = e then v.getD [] else listed r x := by
+  unfold listed Ref.set
+  split <;> rfl
+
+private theorem finv_step (vs : Variants) (hd : vs.dropStale = .fixed) (ho : vs.inOrder = .fixed)
+    {u : Unified} {r : Ref} (h : FInv u r) (op : Op) : FInv (uStep vs u op) (r.step op) := by
+  obtain ⟨ap, hs, hg, hap⟩ := h.ex
+  cases op with
+  | failed => exact h
+  | reg1 x m =>
+    -- RegisterModel never reaches the unifier; the reference only grows
+    have mono : ∀ e n, n ∈ names (listed r e) → n ∈ names (listed (r.step (.reg1 x m)) e) := by
+      intro e n hn
+      unfold Ref.step
+      split
+      · exact hn
+      · simp only [listed_set]
+        split
+        · rename_i hex; subst hex
+          simp only [Option.getD_some]
+          exact (mem_names_addOne _ m n).mpr (Or.inl hn)
+        · exact hn
+    exact ⟨⟨ap, hs, hg, fun e he n hn => mono e n (hap e he n hn)⟩,
+      fun e ms he n hn => mono e n (h.mailbox e ms he n hn), h.owner⟩
+  | reg x ms =>
+    have hok := registerModels_ok_iff vs u.base x ms
+    simp only [uStep, Unified.registerModels]
+    cases hreg : u.base.registerModels vs x ms with
+    | mk b ok =>
+      rw [hreg] at hok
+      simp only at hok
+      cases ok with
+      | false =>
+        have hrej : (Op.reg x ms).rejected = true := by
+          show hasEmptyName ms = true
+          cases hh : hasEmptyName ms with
+          | true => rfl
+          | false => rw [hh] at hok; cases hok
+        simp only [Bool.false_eq_true, if_false, Ref.step, hrej, if_true]
+        exact ⟨⟨ap, hs, hg, hap⟩, h.mailbox, h.owner⟩
+      | true =>
+        have hrej : (Op.reg x ms).rejected = false := by
+          show hasEmptyName ms = false
+          cases hh : hasEmptyName ms with
+          | false => rfl
+          | true => rw [hh] at hok; cases hok
+        simp only [if_true, ho, Ref.step, hrej, Bool.false_eq_true, if_false]
+        have hl : ∀ e, e ≠ x → listed (r.set x (if ms.isEmpty then none else some (ms.filterMap id))) e = listed r e := by
+          intro e he; rw [listed_set]; simp [he]
+        have hlx : listed (r.set x (if ms.isEmpty then none else some (ms.filterMap id))) x = ms.filterMap id := by
+          rw [listed_set]
+          simp only [if_true]
+          by_cases hemp : ms.isEmpty = true
+          · have : ms = [] := List.isEmpty_iff.mp hemp
+            subst this; simp
+          · simp [hemp]
+        refine ⟨⟨ap, hs, hg, fun e he n hn => ?_⟩, fun e ms' he n hn => ?_, fun e he => ?_⟩
+        · simp only at he
+          rw [mget_mput] at he
+          by_cases hex : e = x
+          · simp [hex] at he
+          · have : (e == x) = false := by simpa using hex
+            simp only [this, Bool.false_eq_true, if_false] at he
+            rw [hl e hex]; exact hap e he n hn
+        · simp only at he
+          rw [mget_mput] at he
+          by_cases hex : e = x
+          · subst hex
+            simp only [beq_self_eq_true, if_true, Option.some.injEq] at he
+            subst he
+            rw [hlx]; exact hn
+          · have : (e == x) = false := by simpa using hex
+            simp only [this, Bool.false_eq_true, if_false] at he
+            rw [hl e hex]; exact h.mailbox e ms' he n hn
+        · simp only at he ⊢
+          rw [mget_mput] at he
+          by_cases hex : e = x
+          · subst hex
+            exact ⟨⟨e, ms⟩, by simp, rfl⟩
+          · have : (e == x) = false := by simpa using hex
+            simp only [this, Bool.false_eq_true, if_false] at he
+            obtain ⟨t, ht, hte⟩ := h.owner e he
+            exact ⟨t, by simp [ht], hte⟩
+  | remove x =>
+    simp only [uStep, Unified.removeEndpoint, hd, ho, Ref.step, Op.rejected, Bool.false_eq_true, if_false]
+    obtain ⟨s0, free0, pw0⟩ := sinv_unify_nil hs x (ObjOk ap) (subClosed_objOk ap)
+    generalize unifyModels u.heap u.store [] x = r0 at s0 free0 pw0
+    have g0 : GInv ap u.global r0.1 :=
+      fun q hq => ⟨Nat.lt_of_lt_of_le (hg q hq).1 pw0.1, pw0.2 q.2 (hg q hq).1 (hg q hq).2⟩
+    obtain ⟨g1, gf1, s1⟩ := removeAll_spec (ap := ap) (apS := setAp ap x []) x r0.2.1 u.global (r0.1, u.global) g0 g0
+      (fun q hq => Or.inl hq) s0 free0
+    refine ⟨⟨setAp ap x [], s1, fun q hq => ⟨(g1 q hq).1, objOk_setAp _ (gf1 q hq) (g1 q hq).2⟩, fun e he n hn => ?_⟩,
+      fun e ms he n hn => ?_, fun e he => ?_⟩
+    · simp only at he
+      rw [mget_mdel] at he
+      by_cases hex : e = x
+      · subst hex; simp [setAp] at hn
+      · have : (e == x) = false := by simpa using hex
+        simp only [this, Bool.false_eq_true, if_false] at he
+        simp only [setAp, hex, if_false] at hn
+        rw [listed_set]; simp only [hex, if_false]
+        exact hap e he n hn
+    · simp only at he
+      rw [mget_mdel] at he
+      by_cases hex : e = x
+      · simp [hex] at he
+      · have : (e == x) = false := by simpa using hex
+        simp only [this, Bool.false_eq_true, if_false] at he
+        rw [listed_set]; simp only [hex, if_false]
+        exact h.mailbox e ms he n hn
+    · simp only at he ⊢
+      rw [mget_mdel] at he
+      by_cases hex : e = x
+      · simp [hex] at he
+      · have : (e == x) = false := by simpa using hex
+        simp only [this, Bool.false_eq_true, if_false] at he
+        exact h.owner e he
+  | run i =>
+    have hstep : (Ref.step r (.run i)) = r := by simp [Ref.step, Op.rejected]
+    rw [hstep]
+    simp only [uStep, Unified.runTask]
+    cases hp : u.pending[i]? with
+    | none => exact h
+    | some t =>
+      simp only [ho]
+      have keep : ∀ e, e ≠ t.url → (∃ t' ∈ u.pending, t'.url = e) → ∃ t' ∈ u.pending.eraseIdx i, t'.url = e := by
+        rintro e hne ⟨t', ht', hte⟩
+        exact ⟨t', mem_eraseIdx_of_ne _ i t' t hp ht' (fun heq => hne (by rw [← hte, heq])), hte⟩
+      cases hl : mget u.latest t.url with
+      | none =>
+        simp only
+        refine ⟨⟨ap, hs, hg, hap⟩, h.mailbox, fun e he => ?_⟩
+        have hne : e ≠ t.url := by
+          intro heq; subst heq; simp only at he; rw [hl] at he; cases he
+        exact keep e hne (h.owner e he)
+      | some ms =>
+        simp only
+        obtain ⟨s1, g1, e1, e2, e3⟩ := runUnify_fixed (ap := ap) vs hd
+          { u with pending := u.pending.eraseIdx i, latest := mdel u.latest t.url } ⟨t.url, ms⟩ hs hg
+        refine ⟨⟨_, s1, g1, fun e he n hn => ?_⟩, fun e ms' he n hn => ?_, fun e he => ?_⟩
+        · rw [e2] at he
+          simp only at he
+          rw [mget_mdel] at he
+          by_cases hex : e = t.url
+          · subst hex
+            simp only [setAp, if_true] at hn
+            exact h.mailbox t.url ms hl n hn
+          · have : (e == t.url) = false := by simpa using hex
+            simp only [this, Bool.false_eq_true, if_false] at he
+            simp only [setAp, hex, if_false] at hn
+            exact hap e he n hn
+        · rw [e2] at he
+          simp only at he
+          rw [mget_mdel] at he
+          by_cases hex : e = t.url
+          · simp [hex] at he
+          · have : (e == t.url) = false := by simpa using hex
+            simp only [this, Bool.false_eq_true, if_false] at he
+            exact h.mailbox e ms' he n hn
+        · rw [e2] at he
+          rw [e1]
+          simp only at he ⊢
+          rw [mget_mdel] at he
+          by_cases hex : e = t.url
+          · simp [hex] at he
+          · have : (e == t.url) = false := by simpa using hex
+            simp only [this, Bool.false_eq_true, if_false] at he
+            exact keep e hex (h.owner e he)
+
+private theorem finv_run (vs : Variants) (hd : vs.dropStale = .fixed) (ho : vs.inOrder = .fixed) (ops : List Op) :
+    ∀ (u : Unified) (r : Ref), FInv u r → FInv (uRun vs u ops) (Ref.run r ops) := by
+  induction ops with
+  | nil => intro u r h; exact h
+  | cons op ops ih =>
+    intro u r h
+    simp only [uRun, Ref.run, List.foldl_cons]
+    exact ih _ _ (finv_step vs hd ho h op)
+
+/-- **The unified catalogue refines the reference at quiescence — full strength**, on the tree with
+    `fixes/C10-unify-latest-listing.patch` and `fixes/C10-unified-drop-stale-sources.patch`: for EVERY sequence
+    of listings, single registrations, removals, failures and EVERY schedule of the unification goroutines,
+    once no unification is outstanding every source `(endpoint, native name)` of every catalogue entry is in
+    that endpoint's most recent accepted listing. -/
+theorem unified_sound_fixed (vs : Variants) (hd : vs.dropStale = .fixed) (ho : vs.inOrder = .fixed) (ops : List Op)
+    (hq : (uRun vs Unified.empty ops).pending = []) :
+    catalogueSound (Ref.run Ref.empty ops) (uRun vs Unified.empty ops).catalogue = true := by
+  have h0 : FInv Unified.empty Ref.empty := by
+    refine ⟨⟨fun _ => [], ⟨by simp [Unified.empty, Store.empty], ?_, ?_, ?_, ?_⟩, ?_, ?_⟩, ?_, ?_⟩
+    · intro p hp; simp [Unified.empty, Store.empty] at hp
+    · intro p hp; simp [Unified.empty, Store.empty] at hp
+    · intro p hp; simp [Unified.empty, Store.empty] at hp
+    · intro p hp; simp [Unified.empty, Store.empty] at hp
+    · intro p hp; simp [Unified.empty] at hp
+    · intro e _ n hn; cases hn
+    · intro e ms he; simp [Unified.empty, mget] at he
+    · intro e he; simp [Unified.empty, mget] at he
+  have hf := finv_run vs hd ho ops _ _ h0
+  obtain ⟨ap, _, hg, hap⟩ := hf.ex
+  have hnone : ∀ e, mget (uRun vs Unified.empty ops).latest e = none := by
+    intro e
+    cases hl : mget (uRun vs Unified.empty ops).latest e with
+    | none => rfl
+    | some ms =>
+      obtain ⟨t, ht, _⟩ := hf.owner e (by rw [hl]; rfl)
+      rw [hq] at ht; cases ht
+  simp only [catalogueSound, Unified.catalogue, List.all_eq_true, List.mem_map]
+  rintro o ⟨p, hp, rfl⟩ s hs
+  have hn := hap s.url (hnone s.url) s.native ((hg p hp).2.2 s hs)
+  simp only [List.any_eq_true, beq_iff_eq]
+  simp only [names, List.mem_map] at hn
+  exact hn
+
+end fixedTree
+
 end Olla.Props.C10
